@@ -20,6 +20,14 @@ func init() {
 		fmt.Sscan(in[3], &b)
 		fwr(c, unhx(in[0]), unhx(in[1]), a, b)
 	}
+	replayers["FRP"] = func(c *ctx, in []string) {
+		var n, k, kinds, n2 int
+		fmt.Sscan(in[0], &n)
+		fmt.Sscan(in[1], &k)
+		fmt.Sscan(in[2], &kinds)
+		fmt.Sscan(in[3], &n2)
+		frp(c, n, k, kinds, n2)
+	}
 	replayers["U8RS"] = func(c *ctx, in []string) { u8rs(c, unhx(in[0]), unhx(in[1]), in[2]) }
 	runC18R = runC18Rimpl
 }
@@ -184,6 +192,74 @@ func runC18Rimpl(c *ctx) {
 	}
 	u8rs(c, []byte("abc"), nil, "4096")
 	u8rs(c, []byte("\xe2\x82"), []byte("\xac"), "1")
+	// compression reader: a BIG first message abandoned after k bytes (its source not drained), then
+	// Reset onto a source of another kind (io.ByteReader or not)
+	for _, n := range []int{300, 70000, 200000} {
+		for kinds := 0; kinds < 4; kinds++ {
+			for _, k := range []int{0, 5, 40000} {
+				if k > n || (!c.thor && n == 200000 && k == 40000) {
+					continue
+				}
+				frp(c, n, k, kinds, 100+c.rng.Intn(500))
+			}
+		}
+	}
+}
+
+type plainReader struct{ r io.Reader }
+
+func (p plainReader) Read(b []byte) (int, error) { return p.r.Read(b) }
+
+// FRP: reused compression reader after an abandoned message vs a fresh one, on the same second message
+func frp(c *ctx, n, k, kinds, n2 int) {
+	ctor := func(w io.Writer) wsflate.Compressor { f, _ := flate.NewWriter(w, 1); return f }
+	dctor := func(r io.Reader) wsflate.Decompressor { return flate.NewReader(r) }
+	comp := func(m []byte) []byte {
+		var buf bytes.Buffer
+		w := wsflate.NewWriter(&buf, ctor)
+		w.Write(m)
+		w.Flush()
+		return buf.Bytes()
+	}
+	big := make([]byte, n)
+	rnd := uint32(n*31 + k + 7)
+	for i := range big { // incompressible
+		rnd = rnd*1664525 + 1013904223
+		big[i] = byte(rnd >> 24)
+	}
+	msg2 := patBytes(n2, kinds+1)
+	c1, c2 := comp(big), comp(msg2)
+	mk := func(byteReader bool, data []byte) io.Reader {
+		if byteReader {
+			return bytes.NewReader(data)
+		}
+		return plainReader{bytes.NewReader(data)}
+	}
+	one := func(f func() string) (out string) {
+		out = "panic"
+		res := fzRun(func() error { out = f(); return nil })
+		if res.class == "panic" || res.class == "hang" {
+			out = res.class
+		}
+		return out
+	}
+	ra := one(func() string {
+		r := wsflate.NewReader(mk(kinds&1 != 0, c1), dctor)
+		got, _ := io.ReadFull(r, make([]byte, k))
+		if got != k {
+			return "shortfirst"
+		}
+		r.Reset(mk(kinds&2 != 0, c2))
+		out, err := ioutil.ReadAll(r)
+		return fmt.Sprintf("%s.%s.%s", hx(out), readErrClass(err), readErrClass(r.Err()))
+	})
+	rb := one(func() string {
+		f := wsflate.NewReader(mk(kinds&2 != 0, c2), dctor)
+		out, err := ioutil.ReadAll(f)
+		return fmt.Sprintf("%s.%s.%s", hx(out), readErrClass(err), readErrClass(f.Err()))
+	})
+	want := fmt.Sprintf("%s.nil.nil", hx(msg2))
+	c.emit("FRP %d %d %d %d -> %s %s %d", n, k, kinds, n2, ra, rb, b2i(rb == want))
 }
 
 // standalone UTF8Reader over a chunked source with caller buffers
